@@ -10,7 +10,8 @@ CONSTANTS MaxSegs
 \* the terminal's own directory name (the sandbox phone 13800000001) extended by a character: a sibling
 \* whose name has the directory's name as a string prefix
 PhoneX == <<49, 51, 56, 48, 48, 48, 48, 48, 48, 48, 49, 120>>
-Segs == {DotDot, Dot, <<>>, <<97>>, <<98, 32, 99>>, PhoneX}
+\* (also segments that end in dots or consist of three dots: not "..", but close to it for code that splits names at dots)
+Segs == {DotDot, Dot, <<>>, <<97>>, <<98, 32, 99>>, PhoneX, <<120, 46, 46>>, <<46, 46, 46>>, <<97, 46, 98, 46, 46, 46>>}
 VARIABLES segs, rooted
 \* names at the wire limits: "../" repeated, up to 255 bytes in 0x1210 and 50 in a chunk header
 Long == {[i \in 1..(k + 1) |-> IF i <= k THEN DotDot ELSE <<120>>] : k \in {1, 2, 5, 16, 84}}
